@@ -14,6 +14,23 @@ CLAIMED = {
         note=COMMON_NOTE + "The guard shape of to_reason_code and the nine tables are extracted by a translator; the compiled tables are cross-checked against the extraction on every run.",
         technique="Lean 4 theorems (decide +kernel over the finite table) + translator + exhaustive differential run under ASan",
         design="§5 C20", engine="h_rc"),
+    "C08": dict(
+        text="Refinement proof: the interval allocator model refines a set of free identifiers (allocate = lowest free id, non-zero, removed; free = insert; "
+             "representation invariant kept), lifted by induction over every legal history of allocations and releases of any length (uniqueness among "
+             "outstanding ids, never 0, reuse only after release, overrun iff all 65535 in use). Tied to the code by lock-step differential runs of the real "
+             "packet_id_allocator (returned id and private interval vector after every operation) incl. full exhaustion.",
+        note=COMMON_NOTE + "The model is a hand-written port of allocate()/free() (reversed vector); agreement with the code is observed on generated scripts only. "
+             "That every client operation releases its id exactly once on every completion path is checked at client level (H-client wire monitor), not proved here.",
+        technique="Lean 4 refinement + induction over histories; lock-step differential correspondence with the real allocator under ASan",
+        design="§5 C08", engine="h_pid"),
+    "C11": dict(
+        text="Invariant proof over every legal history (lock, unlock under holder discipline, per-waiter cancellation from outside/inside a handler, cancel-all, executor steps) "
+             "of the async_mutex model: at most one holder, grants in arrival order among non-cancelled waiters, each waiter resolved at most once and accounted for, "
+             "a cancelled waiter is never granted, no completion runs inline. Tied to the code by lock-step differential runs of the real async_mutex.",
+        note=COMMON_NOTE + "Mutex level only so far: that reconnect_op/shutdown_op respect the holder discipline and detect stale triggers (stream level) is not yet modelled. "
+             "Boost.Asio executor/cancellation-slot semantics are restated by the model and pinned by the correspondence.",
+        technique="Lean 4 invariant by induction over operation histories; lock-step differential correspondence with the real async_mutex under ASan",
+        design="§5 C11", engine="h_mutex"),
 }
 
 PENDING_REASON = "not claimed yet: the Lean model and its correspondence harness for this property are still being built (see DESIGN.md §11 build order); no check is registered rather than a weaker technique substituted"
@@ -52,6 +69,8 @@ def main():
             {"name": "lean", "path": "/verif/lean", "serves_properties": sorted(CLAIMED), "kind_free_text": "Lean 4 library Mqtt5V (Gen = translated from source, Spec, Model, Proofs, Props) + compiled model driver mdrv"},
             {"name": "translators", "path": "/verif/tools", "serves_properties": sorted(CLAIMED), "kind_free_text": "regenerate Gen/*.lean from /repo headers on every run"},
             {"name": "h_rc", "path": "/verif/harness/h_rc.cpp", "serves_properties": ["C20"], "kind_free_text": "real to_reason_code under ASan, exhaustive"},
+            {"name": "h_pid", "path": "/verif/harness/h_pid.cpp", "serves_properties": ["C08"], "kind_free_text": "real packet_id_allocator, alloc/free scripts, state dump"},
+            {"name": "h_mutex", "path": "/verif/harness/h_mutex.cpp", "serves_properties": ["C11"], "kind_free_text": "real async_mutex with per-waiter cancellation slots on a polled io_context"},
         ],
         "checks": checks,
         "notes": "Technique: machine-checked proof in Lean 4 about executable models, tied to /repo by translators and differential correspondence (DESIGN.md).",
